@@ -25,7 +25,8 @@ RULE = (
     "method, bounds, constraints and the captured x0); evaluations = (1) every captured callable (fun, jac, hess, "
     "constraint fun/jac), bounds, x0 and method compared with the reference model at probe points (exact), (2) "
     "status / objective / point of optyx vs the raw call when the raw call converges.  Non-trivial = raw call "
-    "converged; distinct by (recipe, method)."
+    "converged; distinct by (recipe, method).  Constrained cases are repeated on a NON-INITIAL problem object (solved once "
+    "with another objective over another variable set, objective then replaced)."
 )
 ASSUMPTIONS = [
     "raw scipy.optimize.minimize with reference callables is the ground truth; cases where it does not converge are counted, not judged",
@@ -174,10 +175,37 @@ def expected_auto(pr, P):
     return {"SLSQP", "trust-constr"}
 
 
-def check_case(pr, method, rep=None, want=None, user_x0=False):
+def prelude_objective(pr):
+    """another objective for the same constraints: the variables the constraints mention plus a new one (zz sorts
+    last) - replacing it by pr's objective changes the variable set (and, for subset rows, keeps its size)"""
+    from mc.interp import var_names as _vn
+
+    names = sorted({nm for cn in pr[3] for nm in _vn(cn[2]) + _vn(cn[3])})
+    o = ("bin", "**", sub(("var", "zz"), c(1.0)), c(2))
+    for nm in names:
+        o = add(o, ("bin", "**", ("var", nm), c(2)))
+    return o
+
+
+def check_case(pr, method, rep=None, want=None, user_x0=False, warm=False):
     fails = Fails(want)
     try:
-        P, b, built = PR.build_problem(pr)
+        if warm:
+            # NON-INITIAL problem object: solved once with another objective over another variable set, then the
+            # objective is replaced through minimize / maximize - everything below must hold for the replaced model
+            import warnings as _w
+
+            pr0 = ("prob", pr[1], prelude_objective(pr) if pr[1] == "min" else ("un", "neg", prelude_objective(pr))) + tuple(pr[3:])
+            P, b, built = PR.build_problem(pr0)
+            with _w.catch_warnings():
+                _w.simplefilter("ignore")
+                try:
+                    P.solve(**({} if method == "auto" else {"method": method}))
+                except Exception:
+                    pass
+            (P.minimize if pr[1] == "min" else P.maximize)(b.build(pr[2]))
+        else:
+            P, b, built = PR.build_problem(pr)
     except Exception as ex:
         fails.add("exception:build:" + type(ex).__name__, msg=str(ex)[:200])
         return fails
@@ -290,6 +318,11 @@ def explore(item, tier, seed):
             if k not in seen:
                 seen.add(k)
                 rep.violation(k, {"label": lab, "problem": pr, "method": m, "user_x0": idx % 11 == 0}, **d)
+        if not fs and pr[3] and m in ("auto", "SLSQP") and lab[3] != "clamping" and (tier == "thorough" or lab[2] in ("subset-row", "ineq-active", "two-LC-rows-same-rhs")):
+            for k, d in check_case(pr, m, rep, warm=True):
+                if k not in seen:
+                    seen.add(k)
+                    rep.violation(k + ":after-objective-replacement", {"label": lab, "problem": pr, "method": m, "warm": True}, **d)
         if rep.states % 101 == 1:
             rep.sample({"label": lab, "method": m, "problem": pr})
     return rep
@@ -303,6 +336,10 @@ def culprit(v):
 
 def replay(art):
     case = art["violation"]["case"]
+    if case.get("warm"):
+        kind = art["culprit"]["kind"].replace(":after-objective-replacement", "")
+        fs = check_case(detuple(case["problem"]), case["method"], None, want=kind, warm=True)
+        return [{"kind": k + ":after-objective-replacement", "detail": d} for k, d in fs]
     fs = check_case(detuple(case["problem"]), case["method"], None, want=art["culprit"]["kind"],
                     user_x0=case.get("user_x0", False))
     return [{"kind": k, "detail": d} for k, d in fs]
